@@ -11,7 +11,7 @@ import subprocess
 import sys
 
 VERIF = os.path.dirname(os.path.dirname(os.path.abspath(__file__)))
-SCRATCH = "/tmp/seedverify"
+SCRATCH = os.environ.get("SEED_SCRATCH", "/tmp/seedverify")
 ENV = dict(os.environ, PATH="/root/.cargo/bin:" + os.environ.get("PATH", ""), CARGO_NET_OFFLINE="true", CARGO_TARGET_DIR=SCRATCH + "/target", CARGO_TERM_COLOR="never")
 
 
